@@ -155,7 +155,9 @@ def gen(ctx):
                                                          secondary=types.SimpleNamespace(radius=1000.0 * 2.0 ** -12)),
                          "eigenvalues": (np.array([0.5]), np.array([2.0]), np.array([])),
                          "eigenvectors": (np.eye(6)[:, :1], np.eye(6)[:, 1:2], np.zeros((6, 0))),
-                         "stability": types.SimpleNamespace(get_real_eigenvectors=lambda W, lam: (lam, np.asarray(W, dtype=float)))}
+                         "stability": types.SimpleNamespace(get_real_eigenvectors=lambda W, lam: (lam, np.asarray(W, dtype=float)),
+                                                            eigenvalues=(np.array([0.5]), np.array([2.0]), np.array([])),
+                                                            eigenvectors=(np.eye(6)[:, :1], np.eye(6)[:, 1:2], np.zeros((6, 0))))}
                 sub = type("ProbeR", (type(svc),), {k: property(lambda self, v=v: v) for k, v in props.items()})
                 svc.__class__ = sub
                 nT = 9
@@ -212,7 +214,7 @@ def run(ctx):
             ctx.leanchecker(["HitenModel.Props.C12"])
     if section is not None:
         ctx.guard("validate_section", validate_section, ctx, section)
-    retention_filter(ctx)
+    ctx.guard("retention_filter", retention_filter, ctx)
     numerics(ctx)
     ctx.rule = ("(orbit, stable/unstable, positive/negative, phase fraction, displacement, method) on real corrected orbits; distinct by that "
                 "tuple; non-trivial = every case (a real manifold seed compared with an independent Floquet direction)")
@@ -259,7 +261,9 @@ def retention_filter(ctx):
                                                      secondary=types.SimpleNamespace(radius=1737.0)),
                      "eigenvalues": (np.array([0.5]), np.array([2.0]), np.array([])),
                      "eigenvectors": (np.eye(6)[:, :1], np.eye(6)[:, 1:2], np.zeros((6, 0))),
-                     "stability": types.SimpleNamespace(get_real_eigenvectors=lambda W, lam: (lam, np.asarray(W, dtype=float)))}
+                     "stability": types.SimpleNamespace(get_real_eigenvectors=lambda W, lam: (lam, np.asarray(W, dtype=float)),
+                                                            eigenvalues=(np.array([0.5]), np.array([2.0]), np.array([])),
+                                                            eigenvectors=(np.eye(6)[:, :1], np.eye(6)[:, 1:2], np.zeros((6, 0))))}
             sub = type("ProbeF", (type(svc),), {k: property(lambda self, v=v: v) for k, v in props.items()})
             svc.__class__ = sub
             nT = 9
